@@ -266,3 +266,25 @@ package execution
 //@   loop 2 invariant checked: forall(j, 0, $k, argValues[c.nullCheckIndices[j]].TypeID != 0)
 //@   ensures errprop: (exists(j, 0, len(c.args), evalErr(c.args[j], ctx) != nil)) ==> result1 != nil
 //@   ensures strictnull: result1 == nil && (exists(j, 0, len(c.nullCheckIndices), evalVal(c.args[c.nullCheckIndices[j]], ctx).TypeID == 0)) ==> result0.TypeID == 0
+
+// C17: a combination of triggers tells every one of its triggers about every event (each exactly once, with the event's
+// own argument) and hands out as many keys as each of them hands out, appended in trigger order after the earlier ones, which stay
+// unchanged (that the appended keys are the sub-trigger's keys is append's own semantics; it is not restated because
+// an arbitrary Trigger implementation may return a slice that aliases the accumulator). (Interface calls are counted by the ghost counters calls(M); lastrecv/lastarg/lastres
+// name the receiver, arguments and result of the latest call.)
+//@ func (*MultiTrigger).KeyReceived
+//@   loop 1 step each: calls(KeyReceived) == old(calls(KeyReceived)) + 1 && lastrecv(KeyReceived) == c.triggers[i] && same(lastarg(KeyReceived, 0), key)
+//@   loop 1 invariant count: 0 <= $k && $k <= len(c.triggers) && calls(KeyReceived) == old(calls(KeyReceived)) + $k
+//@   ensures all: calls(KeyReceived) == old(calls(KeyReceived)) + len(c.triggers)
+//@ func (*MultiTrigger).WatermarkReceived
+//@   loop 1 step each: calls(WatermarkReceived) == old(calls(WatermarkReceived)) + 1 && lastrecv(WatermarkReceived) == c.triggers[i] && lastarg(WatermarkReceived, 0) == watermark
+//@   loop 1 invariant count: 0 <= $k && $k <= len(c.triggers) && calls(WatermarkReceived) == old(calls(WatermarkReceived)) + $k
+//@   ensures all: calls(WatermarkReceived) == old(calls(WatermarkReceived)) + len(c.triggers)
+//@ func (*MultiTrigger).EndOfStreamReached
+//@   loop 1 step each: calls(EndOfStreamReached) == old(calls(EndOfStreamReached)) + 1 && lastrecv(EndOfStreamReached) == c.triggers[i]
+//@   loop 1 invariant count: 0 <= $k && $k <= len(c.triggers) && calls(EndOfStreamReached) == old(calls(EndOfStreamReached)) + $k
+//@   ensures all: calls(EndOfStreamReached) == old(calls(EndOfStreamReached)) + len(c.triggers)
+//@ func (*MultiTrigger).Poll
+//@   loop 1 step each: calls(Poll) == old(calls(Poll)) + 1 && lastrecv(Poll) == c.triggers[i] && len(output) == old(len(output)) + len(lastres(Poll)) && forall(j, 0, old(len(output)), same(output[j], old(output[j])))
+//@   loop 1 invariant count: 0 <= $k && $k <= len(c.triggers) && calls(Poll) == old(calls(Poll)) + $k
+//@   ensures all: calls(Poll) == old(calls(Poll)) + len(c.triggers)
